@@ -39,9 +39,25 @@ impl Adc {
         v.extend(self.footer()); v
     }
 }
-pub fn crc32c(data: &[u8]) -> u32 { // bitwise reference, reflected poly 0x82F63B78
+/// CRC-32C (Castagnoli), reflected polynomial 0x82F63B78, written here independently of the
+/// `crc32c` crate the library uses; table generated from the polynomial at first use.
+pub fn crc32c(data: &[u8]) -> u32 {
+    static TABLE: std::sync::OnceLock<[u32; 256]> = std::sync::OnceLock::new();
+    let t = TABLE.get_or_init(|| {
+        let mut t = [0u32; 256];
+        for i in 0..256u32 {
+            let mut c = i;
+            for _ in 0..8 {
+                c = if c & 1 == 1 { (c >> 1) ^ 0x82F63B78 } else { c >> 1 };
+            }
+            t[i as usize] = c;
+        }
+        t
+    });
     let mut crc: u32 = !0;
-    for b in data { crc ^= *b as u32; for _ in 0..8 { crc = if crc & 1 == 1 { (crc >> 1) ^ 0x82F63B78 } else { crc >> 1 }; } }
+    for b in data {
+        crc = t[((crc ^ *b as u32) & 0xFF) as usize] ^ (crc >> 8);
+    }
     !crc
 }
 #[derive(Clone, Debug)]
@@ -83,7 +99,7 @@ impl Pwb {
 pub struct Trg { pub udp: u32, pub header_hi: u32, pub header_lo: Option<u32>, pub timestamp: u32, pub output: u32, pub input: u32, pub pulser: u32, pub trigger_bitmap: u32, pub nim: u32, pub esata: u32,
     pub mlu: bool, pub aw16_prompt: u16, pub w36_reserved: u32, pub drift: u32, pub scaledown: u32, pub w48: u32, pub aw16_mult: u8, pub aw16_bus: u16, pub w52_hi: u8, pub bsc64_bus: u64, pub bsc64_mult: u8, pub w64_hi: u32, pub latch: u8, pub w68_hi: u32, pub fw: u32, pub footer_hi: u32, pub footer_lo: Option<u32> }
 impl Trg {
-    pub fn simple(timestamp: u32, output: u32) -> Trg { Trg { udp: 5, header_hi: 0x8, header_lo: None, timestamp, output, input: output + 3, pulser: 1, trigger_bitmap: 2, nim: 3, esata: 4, mlu: true, aw16_prompt: 6, w36_reserved: 0, drift: output + 2, scaledown: output + 1, w48: 0, aw16_mult: 2, aw16_bus: 0x0101, w52_hi: 0, bsc64_bus: 0xAA, bsc64_mult: 3, w64_hi: 0, latch: 1, w68_hi: 0, fw: 0x12345678, footer_hi: 0xE, footer_lo: None } }
+    pub fn simple(timestamp: u32, output: u32) -> Trg { Trg { udp: 5, header_hi: 0x8, header_lo: None, timestamp, output, input: output.saturating_add(3), pulser: 1, trigger_bitmap: 2, nim: 3, esata: 4, mlu: true, aw16_prompt: 6, w36_reserved: 0, drift: output.saturating_add(2), scaledown: output.saturating_add(1), w48: 0, aw16_mult: 2, aw16_bus: 0x0101, w52_hi: 0, bsc64_bus: 0xAA, bsc64_mult: 3, w64_hi: 0, latch: 1, w68_hi: 0, fw: 0x12345678, footer_hi: 0xE, footer_lo: None } }
     pub fn encode(&self) -> Vec<u8> {
         let mut v = Vec::new(); let lo = self.output & 0x0FFF_FFFF;
         v.extend(self.udp.to_le_bytes()); v.extend(((self.header_hi << 28) | self.header_lo.unwrap_or(lo)).to_le_bytes()); v.extend(self.timestamp.to_le_bytes()); v.extend(self.output.to_le_bytes()); v.extend(self.input.to_le_bytes());
